@@ -62,7 +62,7 @@ def eval_include_cli(sc):
     """The same configuration through the command line, typed from inside the project directory with relative paths, and with the
     main file's own directory also named by -I (it is searched anyway, so naming it changes nothing)."""
     case = dict(include_case(sc), relative_paths=True)
-    if len(str(sc['place'])) % 3 == 0:
+    if 'd1' in sc['passed'] and len(str(sc['incs'])) % 3 != 0:
         # a search directory whose name contains the character that separates the entries of a PATH-like list: -I names ONE directory
         case['files'] = {(k.replace('d1/', 'd1:v2/', 1) if k.startswith('d1/') else k): v for k, v in case['files'].items()}
         case['include_dirs'] = [d.replace('d1', 'd1:v2') for d in case['include_dirs']]
